@@ -29,6 +29,8 @@ class Prop:
     vo_props = ["theories/Props/C17.vo"]
     k_names = ["checksum(tun.checksumNoFold/checksum/pseudoHeaderChecksumNoFold == Offload.Checksum mirror and == RFC 1071 spec, "
                "64-bit initial values at the edge of 2^64 x every tail length)",
+               "read(tun.NativeTun.Read in vnet-hdr mode over a socketpair == handle_virtio_read of exactly the bytes written, "
+               "reads up to 10 + 65535 bytes)",
                "segments(tun.handleVirtioRead == Offload.Gso.handle_virtio_read, byte for byte, errors and panics included)",
                "spec(Offload.GsoSpec clauses evaluated in Coq on the segments tun.handleVirtioRead produced)"]
     rule = ("virtio-net reads from one PRNG: TCPv4/TCPv6/UDP super-packets (IPv4 options 0..40, TCP options 0..40, "
@@ -121,6 +123,8 @@ class Prop:
             return
         raw = base64.b64decode(case["raw"])
         base = {"nbufs": case["nbufs"], "offset": case["offset"], "room": case["room"]}
+        if case.get("type"):
+            base["type"] = case["type"]      # "rd": keep going through NativeTun.Read
         seen = set()
 
         def cand(r, nb=None):
